@@ -7,8 +7,9 @@ The header generator is arbitrary: whatever `createHeader` returned is the block
 (template, style, merging of old information are the business of C07 / C09).
 -/
 import ReuseVerif.Lemmas.Splice
+import ReuseVerif.Lemmas.FirstLine
 namespace C08
-open Py Model Spec C08L
+open Py Model Spec C08L C10L
 
 /-- what `find_and_replace_header` writes is `place_header` applied to the sections `Spec.replaceSections` -/
 theorem C08_replace_sections {c : HdrCfg} {info : Extracted} {t out : Text}
@@ -221,6 +222,56 @@ theorem C08_no_bom (c : HdrCfg) (replace skip : Bool) (info : Extracted) (t : Te
       simp only [List.head?_cons, ne_eq, Option.some.injEq] at h
       simpa using h
     simp [annotateText, this]
+
+/-- **Table obligation.**  Every first-line marker of every style of the generated table is non-empty, contains
+    no line boundary and is not white space only. -/
+theorem C08_shebang_table : ∀ s ∈ Generated.styles, ∀ sb ∈ s.shebangs, sb ≠ [] ∧ NoBreak sb ∧ ¬ Blank sb := by
+  decide +kernel
+
+/-- what `place_header` puts first when non-blank shebang lines stand above -/
+theorem placed_first {hdr sbl rest out sb : Text} (ex : Bool) (hout : out = placeHeader hdr sbl rest ex)
+    (hpre : sb <+: sbl) (hnb : ¬ Blank sb) : (rstrip sbl ++ ['\n', '\n']) <+: out := by
+  have hnbl : ¬ Blank sbl := not_blank_of_prefix hpre hnb
+  have : (strip sbl).isEmpty = false := by
+    cases h : (strip sbl).isEmpty with
+    | false => rfl
+    | true => exact absurd ((strip_isEmpty_iff _).mp h) hnbl
+  rw [hout, placeHeader_parts]
+  simp only [aboveOf, this, Bool.false_eq_true, if_false]
+  exact ⟨hdr ++ ['\n'] ++ belowOf rest ex, by simp⟩
+
+/-- **Shebang stays first, `--no-replace`.**  For every style of the table: when the text starts with one of the
+    style's first-line markers (`sb`, the first that fits), the output starts with the text's leading marker lines
+    `sbl` — without their trailing white space — followed by one empty line; `t = sbl ++ rest`, `sbl` starts with `sb`. -/
+theorem C08_first_line_add {c : HdrCfg} {info : Extracted} {t out sb : Text} (hs : c.style ∈ Generated.styles)
+    (h : addNewHeader c info t = .ok out) (hf : c.style.shebangs.find? (startsWith t ·) = some sb) :
+    ∃ sbl rest, t = sbl ++ rest ∧ sb <+: sbl ∧ (rstrip sbl ++ ['\n', '\n']) <+: out := by
+  obtain ⟨hdr, _, hout⟩ := C08_add_sections h
+  obtain ⟨hne, hnbk, hnb⟩ := C08_shebang_table _ hs sb (List.mem_of_find?_eq_some hf)
+  have hst : startsWith t sb = true := by simpa using List.find?_some hf
+  have hsec : addSections c t = extractShebang sb t := by simp [addSections, hf]
+  rw [hsec] at hout
+  have hpre := extractShebang_starts hne hnbk hst
+  exact ⟨_, _, (extractShebang_append sb t).symm, hpre, placed_first false hout hpre hnb⟩
+
+/-- **Shebang stays first, replacing mode, no header in the file yet.**  Same conclusion. (With a header in the
+    file the shebang is the first line of `pre` or of the old block, see `moveShebang_spec`; those cases are
+    covered by the correspondence and the oracle's first-line clause.) -/
+theorem C08_first_line_replace_new {c : HdrCfg} {info : Extracted} {t out sb : Text} (hs : c.style ∈ Generated.styles)
+    (hstyle : (c.style.name == "EmptyCommentStyle") = false)
+    (h : findAndReplaceHeader c info t = .ok out) (hnone : findFirstSpdxComment c t = none)
+    (hf : c.style.shebangs.find? (startsWith t ·) = some sb) :
+    ∃ sbl rest, t = sbl ++ rest ∧ sb <+: sbl ∧ (rstrip sbl ++ ['\n', '\n']) <+: out := by
+  obtain ⟨hdr, _, hout⟩ := C08_replace_sections h
+  obtain ⟨hne, hnbk, hnb⟩ := C08_shebang_table _ hs sb (List.mem_of_find?_eq_some hf)
+  have hst : startsWith t sb = true := by simpa using List.find?_some hf
+  have hsec : replaceSections c t = ((extractShebang sb t).1, [], (extractShebang sb t).2) := by
+    unfold replaceSections
+    simp only [hnone, hstyle, Bool.false_eq_true, if_false]
+    rw [moveShebang_nil _ _ (fun x hx => (C08_shebang_table _ hs x hx).1), hf]
+  rw [hsec] at hout
+  have hpre := extractShebang_starts hne hnbk hst
+  exact ⟨_, _, (extractShebang_append sb t).symm, hpre, placed_first _ hout hpre hnb⟩
 
 /-! ### non-vacuity: the hypotheses are satisfiable, the relation is not trivial
 
